@@ -13,6 +13,7 @@ import (
 	"errors"
 	"fmt"
 	"io"
+	"os"
 	"regexp"
 	"sort"
 	"strconv"
@@ -201,6 +202,7 @@ type snapshot struct {
 
 type obs struct {
 	matches     []extractor.Match
+	held        [][]extractor.Match // the batches as received, kept until the end ("however long the consumer holds them")
 	arrival     []string
 	read, match uint64
 	ignored     uint64
@@ -402,6 +404,7 @@ func body(c *Config, o *obs) {
 			if !ok {
 				break
 			}
+			o.held = append(o.held, batch)
 			for _, mt := range batch {
 				o.matches = append(o.matches, mt)
 				o.arrival = append(o.arrival, mt.Source+":"+strconv.FormatUint(mt.LineNumber, 10))
@@ -617,6 +620,20 @@ func check(c *Config, o *obs, res *vrt.Result) []finding {
 			add("C01", "C01/"+c.Path+"/matched-line-not-emitted", fmt.Sprintf("%s\nmissing %s %q", ctx, id, r.text))
 		}
 	}
+	// C02: "these values stay correct however long the consumer holds them": the
+	// batches are kept as received and read again after the pipeline has ended
+	k := 0
+	for bi, hb := range o.held {
+		for j, m := range hb {
+			if k < len(o.matches) {
+				w := o.matches[k]
+				if m.Source != w.Source || m.LineNumber != w.LineNumber || m.Line != w.Line || m.Extracted != w.Extracted || !eqInts(m.Indices, w.Indices) {
+					add("C02", "C02/"+c.Path+"/held-batch-changed", fmt.Sprintf("%s\nbatch #%d element %d was %s:%d %q key=%q when received and is %s:%d %q key=%q at the end", ctx, bi, j, w.Source, w.LineNumber, w.Line, w.Extracted, m.Source, m.LineNumber, m.Line, m.Extracted))
+				}
+			}
+			k++
+		}
+	}
 	// C02: with one reader and one worker matches are emitted in input order
 	if c.Workers == 1 && (c.Path == "reader" || c.Readers == 1) {
 		var wantOrder []string
@@ -674,6 +691,8 @@ var shapes = []string{
 	"ab\n\nba\n",     // 7
 	"a\nb\na\nb\n",   // 8 several batches
 	"b\nb\naaaaa\nb", // 9
+	"a\nb\na\nb\na\nb\na\nb\n",                   // 10: eight one-line batches from one worker (more than the match channel holds)
+	"a\nb\nb\na\na\nb\nb\na\na\nb\nb\na\na\nb\nb\na\n", // 11: eight two-line batches
 }
 
 type logic struct{ matcher, extract, ignore string }
@@ -734,6 +753,21 @@ func configs(prop, tier string) []*Config {
 			c := Config{Path: "reader", Sources: []string{shapes[2]}, Matcher: "re", Extract: exZero, Batch: 1, Workers: 1, Readers: 1, Buffer: 1, Agg: true}
 			c.ErrSrc, c.Bound = -1, 3
 			out = append(out, &c)
+		}
+		// a worker that gets more batches ahead of the aggregation loop than the
+		// match channel holds (8 batches, channel capacity 5): the batch the loop
+		// is still walking must not be recycled. With a batch buffer that holds the
+		// whole input the reader runs ahead by default, so one deviation (leaving
+		// the loop inside Sample) lets the worker lap it. One deviation less than
+		// the rest of the tier (the executions are four times longer).
+		for _, lc := range []Config{
+			// (keys carry the line number, so that every batch has its own content)
+			{Path: "reader", Sources: []string{shapes[11]}, Matcher: "re", Extract: exFull, Batch: 2, Workers: 1, Readers: 1, Buffer: 8, Agg: true},
+			{Path: "reader", Sources: []string{shapes[11]}, Matcher: "re", Extract: exFull, Batch: 2, Workers: 1, Readers: 1, Buffer: 1, Agg: true},
+		} {
+			lc.ErrSrc, lc.Bound = -1, bound-1
+			l := lc
+			out = append(out, &l)
 		}
 		// unsynchronised matcher scratch shared between workers is only visible to
 		// the race detector: dissect instances own an int pool
@@ -853,6 +887,18 @@ func configs(prop, tier string) []*Config {
 	}
 	add(Config{Path: "reader", Sources: []string{shapes[8]}, Matcher: "dissect", Extract: exFull, Batch: 1, Workers: 2, Readers: 1, Buffer: 2})
 	add(Config{Path: "reader", Sources: []string{shapes[8]}, Matcher: "re", Extract: exFull, Batch: 1, Workers: 0, Readers: 1, Buffer: 1})
+	// more batches from one worker than the match channel (capacity 5) holds,
+	// while the consumer keeps every batch it received: a worker that recycles
+	// its match slices overwrites what the consumer still holds
+	for _, lc := range []Config{
+		{Path: "reader", Sources: []string{shapes[10]}, Matcher: "re", Extract: exFull, Batch: 1, Workers: 1, Readers: 1, Buffer: 1},
+		{Path: "reader", Sources: []string{shapes[11]}, Matcher: "re", Extract: exFull, Batch: 2, Workers: 1, Readers: 1, Buffer: 2},
+		{Path: "reader", Sources: []string{shapes[11]}, Matcher: "re", Extract: exFull, Batch: 1, Workers: 2, Readers: 1, Buffer: 1},
+	} {
+		lc.ErrSrc, lc.Bound = -1, bound-1
+		l := lc
+		out = append(out, &l)
+	}
 	// several ignore expressions, the truthy one last (a set that reorders or
 	// caches its expressions is shared by the workers)
 	for _, s := range []int{9, 8} {
@@ -981,6 +1027,10 @@ func replay(w *runner.W, raw json.RawMessage) {
 	ex := mc.NewReplay(c.Vector)
 	ex.Next()
 	_, res, fs := run(ex, c.Config, w.Prop == "C05" || w.Prop == "C01")
+	if os.Getenv("VERIF_TRACE") != "" {
+		// development aid: print the schedule of the replayed vector
+		fmt.Fprintln(os.Stderr, strings.Join(traceCase(c.Config, c.Vector).Trace, "\n"))
+	}
 	for _, f := range fs {
 		if f.prop == w.Prop {
 			w.Violation(f.sig, f.detail+"\nschedule: "+strings.Join(traceCase(c.Config, c.Vector).Trace, " "), c)
